@@ -259,6 +259,73 @@ def structured_soup(fmt, rng, doc_lines):
     return "\n".join(rng.choice(doc_lines) for _ in range(k)) + "\n"
 
 
+
+# ---------------------------------------------------------------------------------------------
+# micro documents: every text of one or two lines over a small alphabet of record heads
+# ---------------------------------------------------------------------------------------------
+MICRO_ALPHABET = ["42", "0", "-1", "1.5", "abc", "", "#", "# x", "cell", "cell 1 1 1 90 90 90", "data_", "data_x", "title", "title t",
+                  "format pdffit", "atoms", "ncell 1 1 1 1", "Number of particles = 1", "A = 1", "ATOM", "END", "CRYST1", "C 0 0 0",
+                  "0 0 0", "loop_", "_a 1", "molecule"]
+
+
+def micro_documents():
+    """[(name, text)]: all documents of one or two lines over MICRO_ALPHABET, with the line-ending variants a file can have
+    (no final newline, one, two)."""
+    out = []
+    for a in MICRO_ALPHABET:
+        for tail in ("", "\n", "\n\n"):
+            out.append(("1:%s%r" % (a, tail), a + tail))
+    for a in MICRO_ALPHABET:
+        for b in MICRO_ALPHABET:
+            out.append(("2:%s|%s" % (a, b), a + "\n" + b + "\n"))
+    return out
+
+
+# a CIF whose space group is given only by an explicit operation list that matches no tabulated group (as customsg.cif):
+# faults in the operation loop (identity deleted / replaced, non-group lists) reach the symmetry code, not just the tokenizer
+CUSTOM_SYMOP_CIF = """data_custom
+_cell_length_a 2.456
+_cell_length_b 2.456
+_cell_length_c 6.696
+_cell_angle_alpha 90
+_cell_angle_beta 90
+_cell_angle_gamma 120
+loop_
+_symmetry_equiv_pos_as_xyz
+  'x,y,z'
+  '-x,-x+y,1/2+z'
+  'x-y,x,1/2+z'
+  '-y,-x,z'
+  '-y,x-y,z'
+  'x-y,-y,1/2+z'
+loop_
+_atom_site_label
+_atom_site_fract_x
+_atom_site_fract_y
+_atom_site_fract_z
+C1   0.00000   0.00000   0.00000
+C2   0.33333   0.66667   0.00000
+"""
+
+SYMOP_REPLACEMENTS = ["'0,0,0'", "'-x,-y,-z'", "'x+1/2,y,z'", "'x,y'", "'x,x,x'", "'2x,y,z'", "'y,x,z'", "'x,y,z+1/3'", "x,y,z"]
+
+
+def symop_faults(text=CUSTOM_SYMOP_CIF):
+    """Faults aimed at the operation loop: delete each operator, replace each by a non-identity / malformed one, keep only one,
+    and the same with an unknown space-group name added."""
+    lines = text.split("\n")
+    idx = [i for i, ln in enumerate(lines) if ln.strip().startswith("'")]
+    out = []
+    for i in idx:
+        out.append(("symop_del:%d" % i, "\n".join(lines[:i] + lines[i + 1:])))
+        for k, r in enumerate(SYMOP_REPLACEMENTS):
+            out.append(("symop_repl:%d:%d" % (i, k), "\n".join(lines[:i] + ["  " + r] + lines[i + 1:])))
+    for k, r in enumerate(SYMOP_REPLACEMENTS):
+        out.append(("symop_only:%d" % k, "\n".join(lines[:idx[0]] + ["  " + r] + lines[idx[-1] + 1:])))
+    hm = "_symmetry_space_group_name_H-M 'Q 9 9'"
+    out += [(d + ":hm", t.replace("loop_\n_symmetry_equiv", hm + "\nloop_\n_symmetry_equiv", 1)) for d, t in list(out)]
+    return out
+
 # ---------------------------------------------------------------------------------------------
 # running the real parsers
 # ---------------------------------------------------------------------------------------------
